@@ -2,9 +2,43 @@
 
 package consul
 
-import "github.com/hashicorp/consul/agent/structs"
+import (
+	"context"
+	"fmt"
+	"io"
+	"net"
+	"os"
+	"path/filepath"
+	"sync/atomic"
+	"time"
 
-// Verif* export the unexported replication diff functions to the C19 harness.
+	"github.com/hashicorp/go-hclog"
+	"github.com/hashicorp/go-uuid"
+	"github.com/hashicorp/raft"
+	"github.com/hashicorp/serf/serf"
+	"google.golang.org/grpc/keepalive"
+
+	rpcRate "github.com/hashicorp/consul/agent/consul/rate"
+	"github.com/hashicorp/consul/agent/consul/state"
+	"github.com/hashicorp/consul/agent/consul/stream"
+	external "github.com/hashicorp/consul/agent/grpc-external"
+	"github.com/hashicorp/consul/agent/grpc-external/limiter"
+	grpcint "github.com/hashicorp/consul/agent/grpc-internal"
+	"github.com/hashicorp/consul/agent/grpc-internal/balancer"
+	"github.com/hashicorp/consul/agent/grpc-internal/resolver"
+	"github.com/hashicorp/consul/agent/netutil"
+	"github.com/hashicorp/consul/agent/pool"
+	"github.com/hashicorp/consul/agent/router"
+	"github.com/hashicorp/consul/agent/rpc/middleware"
+	"github.com/hashicorp/consul/agent/structs"
+	"github.com/hashicorp/consul/agent/token"
+	"github.com/hashicorp/consul/sdk/freeport"
+	"github.com/hashicorp/consul/tlsutil"
+	"github.com/hashicorp/consul/types"
+)
+
+// ---------------------------------------------------------------------------
+// diff-level exports (the merge walks alone)
 
 type VerifDiff struct {
 	Deletes, Upserts            []string
@@ -26,4 +60,437 @@ func VerifDiffTokens(local structs.ACLTokens, remote structs.ACLTokenListStubs, 
 }
 func VerifDiffConfigEntries(local, remote []structs.ConfigEntry, last uint64) (dels, ups []structs.ConfigEntry) {
 	return diffConfigEntries(local, remote, last)
+}
+
+const (
+	VerifACLBatchDeleteSize = aclBatchDeleteSize
+	VerifACLBatchUpsertSize = aclBatchUpsertSize
+)
+
+// ---------------------------------------------------------------------------
+// round-level exports: two real in-process servers (primary dc1, secondary dc2),
+// built the way server_test.go's testServerWithConfig/newDefaultDeps build them,
+// with the background replication routines of the secondary stopped so that the
+// harness runs exactly one real round at a time.
+
+const VerifMgmtToken = "d9f05e83-a7ae-47ce-839e-c0d53a68c00a"
+
+type VerifPair struct {
+	P, S    *Server // primary (dc1), secondary (dc2)
+	cleanup []func()
+	logf    io.Closer
+}
+
+var verifNodeSeq int64
+
+func verifConfig(dir, dc string) (*Config, []int, error) {
+	ports, err := freeport.Take(4) // server, serf_lan, serf_wan, grpc
+	if err != nil {
+		return nil, nil, err
+	}
+	config := DefaultConfig()
+	config.NodeName = fmt.Sprintf("verif-c19-%s-%d-%d", dc, os.Getpid(), atomic.AddInt64(&verifNodeSeq, 1))
+	config.Bootstrap = true
+	config.Datacenter = dc
+	config.PrimaryDatacenter = "dc1"
+	config.DataDir = dir
+	config.DevMode = true // in-memory raft log / stable / snapshot stores
+	config.RPCAddr = &net.TCPAddr{IP: []byte{127, 0, 0, 1}, Port: ports[0]}
+	nodeID, err := uuid.GenerateUUID()
+	if err != nil {
+		return nil, nil, err
+	}
+	config.NodeID = types.NodeID(nodeID)
+
+	for i, sc := range []*serf.Config{config.SerfLANConfig, config.SerfWANConfig} {
+		sc.MemberlistConfig.BindAddr = "127.0.0.1"
+		sc.MemberlistConfig.BindPort = ports[1+i]
+		sc.MemberlistConfig.AdvertisePort = ports[1+i]
+		sc.MemberlistConfig.SuspicionMult = 2
+		sc.MemberlistConfig.ProbeTimeout = 50 * time.Millisecond
+		sc.MemberlistConfig.ProbeInterval = 100 * time.Millisecond
+		sc.MemberlistConfig.GossipInterval = 100 * time.Millisecond
+		sc.MemberlistConfig.DeadNodeReclaimTime = 100 * time.Millisecond
+	}
+	// the machine may be heavily loaded: do not let the WAN failure detector
+	// declare the other datacenter dead
+	config.SerfWANConfig.MemberlistConfig.SuspicionMult = 30
+	config.SerfWANConfig.MemberlistConfig.ProbeTimeout = 2 * time.Second
+	config.SerfWANConfig.MemberlistConfig.ProbeInterval = 5 * time.Second
+
+	config.RaftConfig.LeaderLeaseTimeout = 100 * time.Millisecond
+	config.RaftConfig.HeartbeatTimeout = 200 * time.Millisecond
+	config.RaftConfig.ElectionTimeout = 200 * time.Millisecond
+	config.ReconcileInterval = 300 * time.Millisecond
+	config.AutopilotConfig.ServerStabilizationTime = 100 * time.Millisecond
+	config.ServerHealthInterval = 50 * time.Millisecond
+	config.AutopilotInterval = 100 * time.Millisecond
+	config.CoordinateUpdatePeriod = 100 * time.Millisecond
+	config.LeaveDrainTime = 1 * time.Millisecond
+	config.RPCHoldTimeout = 10 * time.Second
+	config.GRPCPort = ports[3]
+	config.ConnectEnabled = false
+	config.PeeringEnabled = false
+	config.DisableFederationStateAntiEntropy = true
+
+	config.ACLsEnabled = true
+	config.ACLInitialManagementToken = VerifMgmtToken
+	config.ACLResolverSettings.ACLDefaultPolicy = "deny"
+	return config, ports, nil
+}
+
+func verifDeps(c *Config, logger hclog.InterceptLogger, cleanup *[]func()) (Deps, error) {
+	tls, err := tlsutil.NewConfigurator(c.TLSConfig, logger)
+	if err != nil {
+		return Deps{}, err
+	}
+	rb := resolver.NewServerResolverBuilder(resolver.Config{
+		Datacenter: c.Datacenter,
+		AgentType:  "server",
+		Authority:  fmt.Sprintf("verifc19-%d-%s", os.Getpid(), c.NodeName),
+	})
+	resolver.Register(rb)
+	*cleanup = append(*cleanup, func() { resolver.Deregister(rb.Authority()) })
+	bb := balancer.NewBuilder(rb.Authority(), hclog.NewNullLogger())
+	bb.Register()
+	*cleanup = append(*cleanup, bb.Deregister)
+
+	r := router.NewRouter(logger, c.Datacenter, fmt.Sprintf("%s.%s", c.NodeName, c.Datacenter), grpcint.NewTracker(rb, bb))
+	connPool := &pool.ConnPool{
+		Server:           false,
+		SrcAddr:          c.RPCSrcAddr,
+		Logger:           logger.StandardLogger(&hclog.StandardLoggerOptions{InferLevels: true}),
+		MaxTime:          2 * time.Minute,
+		MaxStreams:       4,
+		TLSConfigurator:  tls,
+		Datacenter:       c.Datacenter,
+		DefaultQueryTime: c.DefaultQueryTime,
+		MaxQueryTime:     c.MaxQueryTime,
+		RPCHoldTimeout:   c.RPCHoldTimeout,
+	}
+	connPool.SetRPCClientTimeout(c.RPCClientTimeout)
+	return Deps{
+		EventPublisher:  stream.NewEventPublisher(10 * time.Second),
+		Logger:          logger,
+		TLSConfigurator: tls,
+		Tokens:          new(token.Store),
+		Router:          r,
+		ConnPool:        connPool,
+		GRPCConnPool: grpcint.NewClientConnPool(grpcint.ClientConnPoolConfig{
+			Servers:               rb,
+			TLSWrapper:            grpcint.TLSWrapper(tls.OutgoingRPCWrapper()),
+			UseTLSForDC:           tls.UseTLS,
+			DialingFromServer:     true,
+			DialingFromDatacenter: c.Datacenter,
+		}),
+		LeaderForwarder:          rb,
+		NewRequestRecorderFunc:   middleware.NewRequestRecorder,
+		GetNetRPCInterceptorFunc: middleware.GetNetRPCInterceptor,
+		EnterpriseDeps:           EnterpriseDeps{},
+		XDSStreamLimiter:         limiter.NewSessionLimiter(),
+		Registry:                 NewTypeRegistry(),
+	}, nil
+}
+
+func verifServer(c *Config, logger hclog.InterceptLogger, cleanup *[]func()) (*Server, error) {
+	c.ACLResolverSettings.ACLsEnabled = c.ACLsEnabled
+	c.ACLResolverSettings.NodeName = c.NodeName
+	c.ACLResolverSettings.Datacenter = c.Datacenter
+	c.ACLResolverSettings.EnterpriseMeta = *c.AgentEnterpriseMeta()
+	deps, err := verifDeps(c, logger, cleanup)
+	if err != nil {
+		return nil, err
+	}
+	up := make(chan struct{})
+	c.NotifyListen = func() { close(up) }
+	grpcServer := external.NewServer(deps.Logger.Named("grpc.external"), nil, deps.TLSConfigurator,
+		rpcRate.NullRequestLimitsHandler(), keepalive.ServerParameters{}, nil)
+	srv, err := NewServer(c, deps, grpcServer, nil, deps.Logger)
+	if err != nil {
+		return nil, err
+	}
+	*cleanup = append(*cleanup, func() { srv.Shutdown() })
+	select {
+	case <-up:
+	case <-time.After(60 * time.Second):
+		return nil, fmt.Errorf("server %s did not start listening", c.NodeName)
+	}
+	c.RPCAddr = srv.Listener.Addr().(*net.TCPAddr)
+	return srv, nil
+}
+
+func verifWait(what string, d time.Duration, f func() error) error {
+	deadline := time.Now().Add(d)
+	var err error
+	for {
+		if err = f(); err == nil {
+			return nil
+		}
+		if time.Now().After(deadline) {
+			return fmt.Errorf("timeout waiting for %s: %v", what, err)
+		}
+		time.Sleep(20 * time.Millisecond)
+	}
+}
+
+// VerifStartPair starts the primary (dc1) and the secondary (dc2, ACL token +
+// config-entry replication enabled), joins them over the WAN, stops the
+// secondary's background replication routines and only then installs the
+// replication token. primaryQueryTime is the primary's DefaultQueryTime: the
+// time a fetch with MinQueryIndex >= the primary's index blocks.
+func VerifStartPair(dir string, primaryQueryTime time.Duration) (vp *VerifPair, err error) {
+	netutil.GetAgentBindAddrFunc = netutil.GetMockGetAgentBindAddrFunc("0.0.0.0")
+	if err := os.MkdirAll(dir, 0o755); err != nil {
+		return nil, err
+	}
+	lf, err := os.Create(filepath.Join(dir, "servers.log"))
+	if err != nil {
+		return nil, err
+	}
+	vp = &VerifPair{logf: lf}
+	defer func() {
+		if err != nil {
+			vp.Close()
+			vp = nil
+		}
+	}()
+	mk := func(dc string, mod func(*Config)) (*Server, error) {
+		var last error
+		for attempt := 0; attempt < 3; attempt++ { // bind address may be taken: retry with new ports
+			d := filepath.Join(dir, fmt.Sprintf("%s-%d", dc, attempt))
+			if err := os.MkdirAll(d, 0o755); err != nil {
+				return nil, err
+			}
+			c, ports, err := verifConfig(d, dc)
+			if err != nil {
+				last = err
+				continue
+			}
+			mod(c)
+			logger := hclog.NewInterceptLogger(&hclog.LoggerOptions{Name: c.NodeName, Level: hclog.Warn, Output: lf})
+			var cl []func()
+			srv, err := verifServer(c, logger, &cl)
+			if err != nil {
+				for i := len(cl) - 1; i >= 0; i-- {
+					cl[i]()
+				}
+				freeport.Return(ports)
+				last = err
+				continue
+			}
+			vp.cleanup = append(vp.cleanup, cl...)
+			vp.cleanup = append(vp.cleanup, func() { freeport.Return(ports) })
+			return srv, nil
+		}
+		return nil, last
+	}
+	if vp.P, err = mk("dc1", func(c *Config) {
+		c.DefaultQueryTime = primaryQueryTime
+	}); err != nil {
+		return vp, err
+	}
+	if vp.S, err = mk("dc2", func(c *Config) {
+		c.ACLTokenReplication = true
+		c.ACLReplicationRate = 100
+		c.ACLReplicationBurst = 100
+		c.ACLReplicationApplyLimit = 1000000
+		c.ConfigReplicationRate = 100
+		c.ConfigReplicationBurst = 100
+		c.ConfigReplicationApplyLimit = 1000000
+	}); err != nil {
+		return vp, err
+	}
+	for _, s := range []*Server{vp.P, vp.S} {
+		s := s
+		if err = verifWait("leader "+s.config.Datacenter, 120*time.Second, func() error {
+			if !s.IsLeader() || !s.isReadyForConsistentReads() {
+				return fmt.Errorf("no established leader")
+			}
+			return nil
+		}); err != nil {
+			return vp, err
+		}
+	}
+	wanAddr := fmt.Sprintf("127.0.0.1:%d", vp.P.config.SerfWANConfig.MemberlistConfig.BindPort)
+	if _, err = vp.S.JoinWAN([]string{wanAddr}); err != nil {
+		return vp, err
+	}
+	// stop the background replicators (the ACL ones never run a round while the
+	// replication token is unset; the config one may be parked in a fetch and
+	// leaves without applying anything once its context is cancelled)
+	if err = vp.Quiesce(120 * time.Second); err != nil {
+		return vp, err
+	}
+	vp.S.tokens.UpdateReplicationToken(VerifMgmtToken, token.TokenSourceConfig)
+	vp.P.tokens.UpdateReplicationToken(VerifMgmtToken, token.TokenSourceConfig)
+	if err = verifWait("cross-datacenter RPC", 120*time.Second, func() error {
+		_, e := vp.S.fetchConfigEntries(0)
+		return e
+	}); err != nil {
+		return vp, err
+	}
+	if err = verifWait("primary ACL bootstrap", 120*time.Second, func() error {
+		_, tok, e := vp.P.fsm.State().ACLTokenGetBySecret(nil, VerifMgmtToken, nil)
+		if e != nil {
+			return e
+		}
+		if tok == nil {
+			return fmt.Errorf("initial management token not yet created")
+		}
+		_, e = vp.S.fetchACLPolicies(0)
+		return e
+	}); err != nil {
+		return vp, err
+	}
+	return vp, nil
+}
+
+var verifReplRoutines = []string{
+	aclPolicyReplicationRoutineName, aclRoleReplicationRoutineName, aclTokenReplicationRoutineName,
+	configReplicationRoutineName, federationStateReplicationRoutineName,
+}
+
+// Quiesce stops the secondary's background replication routines and waits until
+// their goroutines have returned.
+func (vp *VerifPair) Quiesce(d time.Duration) error {
+	deadline := time.After(d)
+	for _, name := range verifReplRoutines {
+		select {
+		case <-vp.S.leaderRoutineManager.Stop(name):
+		case <-deadline:
+			return fmt.Errorf("routine %q did not stop", name)
+		}
+	}
+	return nil
+}
+
+// Quiet reports whether none of the background replication routines is running
+// (they would be restarted if leadership were re-established).
+func (vp *VerifPair) Quiet() bool {
+	for _, name := range verifReplRoutines {
+		if vp.S.leaderRoutineManager.IsRunning(name) {
+			return false
+		}
+	}
+	return vp.S.IsLeader() && vp.P.IsLeader()
+}
+
+func (vp *VerifPair) Close() {
+	for i := len(vp.cleanup) - 1; i >= 0; i-- {
+		vp.cleanup[i]()
+	}
+	vp.cleanup = nil
+	if vp.logf != nil {
+		vp.logf.Close()
+	}
+}
+
+func (vp *VerifPair) srv(secondary bool) *Server {
+	if secondary {
+		return vp.S
+	}
+	return vp.P
+}
+
+// RunConfigRound executes one real (*Server).replicateConfig round in the secondary.
+func (vp *VerifPair) RunConfigRound(ctx context.Context, last uint64) (uint64, bool, error) {
+	return vp.S.replicateConfig(ctx, last, hclog.NewNullLogger())
+}
+
+// RunACLRound executes one real (*Server).replicateACLType round in the secondary
+// through the per-type entry points the background replicators use.
+func (vp *VerifPair) RunACLRound(ctx context.Context, kind string, last uint64) (uint64, bool, error) {
+	l := hclog.NewNullLogger()
+	switch kind {
+	case "policy":
+		return vp.S.replicateACLPolicies(ctx, l, last)
+	case "role":
+		return vp.S.replicateACLRoles(ctx, l, last)
+	case "token":
+		return vp.S.replicateACLTokens(ctx, l, last)
+	}
+	return 0, false, fmt.Errorf("unknown ACL kind %q", kind)
+}
+
+// RemoteIndex is the index the primary's list endpoint reports to the secondary
+// right now (the same fetch the round starts with, MinQueryIndex 0 = non-blocking).
+func (vp *VerifPair) RemoteIndex(kind string) (uint64, error) {
+	switch kind {
+	case "policy":
+		r, err := vp.S.fetchACLPolicies(0)
+		if err != nil {
+			return 0, err
+		}
+		return r.Index, nil
+	case "role":
+		r, err := vp.S.fetchACLRoles(0)
+		if err != nil {
+			return 0, err
+		}
+		return r.Index, nil
+	case "token":
+		r, err := vp.S.fetchACLTokens(0)
+		if err != nil {
+			return 0, err
+		}
+		return r.Index, nil
+	case "cfg":
+		r, err := vp.S.fetchConfigEntries(0)
+		if err != nil {
+			return 0, err
+		}
+		return r.Index, nil
+	}
+	return 0, fmt.Errorf("unknown kind %q", kind)
+}
+
+// Apply commits one command through the leader's Raft (leaderRaftApply), i.e. the
+// same call the replication round itself uses for its writes.
+func (vp *VerifPair) Apply(secondary bool, t structs.MessageType, msg any) (any, error) {
+	resp, err := vp.srv(secondary).leaderRaftApply("Verif.Apply", t, msg)
+	if err != nil {
+		return nil, err
+	}
+	if e, ok := resp.(error); ok {
+		return nil, e
+	}
+	return resp, nil
+}
+
+// RPC calls a real RPC endpoint of one of the servers.
+func (vp *VerifPair) RPC(secondary bool, method string, args, reply any) error {
+	return vp.srv(secondary).RPC(context.Background(), method, args, reply)
+}
+
+func (vp *VerifPair) State(secondary bool) *state.Store { return vp.srv(secondary).fsm.State() }
+
+func (vp *VerifPair) RaftLastIndex(secondary bool) uint64 { return vp.srv(secondary).raft.LastIndex() }
+
+type VerifLog struct {
+	Index uint64
+	Type  structs.MessageType
+	Data  []byte // message body without the type byte
+}
+
+// RaftCommands returns the command entries with from < index <= to of the Raft log.
+func (vp *VerifPair) RaftCommands(secondary bool, from, to uint64) ([]VerifLog, error) {
+	s := vp.srv(secondary)
+	var out []VerifLog
+	for i := from + 1; i <= to; i++ {
+		var l raft.Log
+		var err error
+		if s.raftInmem != nil {
+			err = s.raftInmem.GetLog(i, &l)
+		} else {
+			err = s.raftStore.GetLog(i, &l)
+		}
+		if err != nil {
+			return nil, fmt.Errorf("raft log %d: %v", i, err)
+		}
+		if l.Type != raft.LogCommand || len(l.Data) == 0 {
+			continue
+		}
+		out = append(out, VerifLog{Index: i, Type: structs.MessageType(l.Data[0]), Data: l.Data[1:]})
+	}
+	return out, nil
 }
